@@ -315,3 +315,214 @@ Proof.
   destruct F as (Fo & Fw & _ & _). subst o w. exists lg. split; [reflexivity|].
   cbn [app] in Ho'. unfold query_text. rewrite <- Ho'. exact Hlen'.
 Qed.
+
+(* =========================================================================== *)
+(* 3. the composed text is a legal query                                          *)
+(* =========================================================================== *)
+Local Open Scope N_scope.
+
+Lemma query_legal_app a b : query_legal a = true -> query_legal b = true -> query_legal (a ++ b) = true.
+Proof.
+  revert a. fix IH 1. intros a Ha Hb. destruct a as [|c r]; [exact Hb|].
+  cbn [app query_legal] in *.
+  destruct (c =? 37).
+  - destruct r as [|x [|y r2]]; try discriminate. cbn [app].
+    apply andb_prop in Ha. destruct Ha as [Ha1 Ha2]. rewrite Ha1. cbn [andb]. apply IH; assumption.
+  - apply andb_prop in Ha. destruct Ha as [Ha1 Ha2]. rewrite Ha1. cbn [andb]. apply IH; assumption.
+Qed.
+
+Lemma upper_hexdig_hexdig c : is_upper_hexdig c = true -> is_hexdig c = true.
+Proof. unfold is_upper_hexdig, is_hexdig. intros H. apply orb_true_iff in H. destruct H as [-> | ->]; [reflexivity|]. rewrite orb_true_r. reflexivity. Qed.
+
+Lemma escaped_form_query_legal pa : forall l, escaped_form pa l = true -> query_legal l = true.
+Proof.
+  fix IH 1. intros l H. destruct l as [|c r]; [reflexivity|].
+  cbn [escaped_form query_legal] in *.
+  destruct (c =? 37) eqn:E.
+  - destruct r as [|a [|b r2]]; try discriminate.
+    apply andb_prop in H. destruct H as [H H3]. apply andb_prop in H. destruct H as [H1 H2].
+    rewrite (upper_hexdig_hexdig _ H1), (upper_hexdig_hexdig _ H2). cbn [andb]. apply IH. exact H3.
+  - apply andb_prop in H. destruct H as [H1 H2]. rewrite (IH _ H2). rewrite andb_true_r.
+    clear IH H2. unfold is_query_plain, is_pchar_plain, is_subdelim. destruct pa; cbn [andb] in H1; lia.
+Qed.
+
+Lemma qtext_legal stp nb : forall l first, query_legal (qtext stp nb first l) = true.
+Proof.
+  induction l as [|[k v] r IH]; intros first; [reflexivity|].
+  cbn [qtext]. apply query_legal_app; [destruct first; reflexivity|].
+  apply query_legal_app; [apply (escaped_form_query_legal stp), escape_charset|].
+  apply query_legal_app; [|apply IH].
+  destruct v as [t|]; [|reflexivity].
+  change (61 :: escape stp nb t) with ([61] ++ escape stp nb t).
+  apply query_legal_app; [reflexivity|]. apply (escaped_form_query_legal stp), escape_charset.
+Qed.
+
+Theorem compose_query_legal dn stp nb cap l out w log :
+  compose_ex dn stp nb cap l = COk out w log -> query_legal out = true.
+Proof.
+  intros H. pose proof (compose_ex_fits dn stp nb cap l) as F. rewrite H in F.
+  destruct F as (-> & _). apply qtext_legal.
+Qed.
+
+(* =========================================================================== *)
+(* 4. dissecting the composed text                                                *)
+(* =========================================================================== *)
+Definition no_amp_eq (s : text) : Prop := Forall (fun c => c <> 38 /\ c <> 61) s.
+
+Lemma escape_no_amp_eq stp nb t : no_amp_eq (escape stp nb t).
+Proof.
+  apply Forall_forall. intros c Hc. apply escape_char_in in Hc. apply esc_char_not_special in Hc. tauto.
+Qed.
+
+Lemma walk_key pts bc : forall s rest kfn kr acc cnt, no_amp_eq s ->
+  dissect_walk pts bc (s ++ rest) kfn kr None acc cnt
+  = dissect_walk pts bc rest kfn (rev s ++ kr) None acc cnt.
+Proof.
+  induction s as [|c s IH]; intros rest kfn kr acc cnt H; [reflexivity|].
+  inversion H as [|? ? [H1 H2] Hs]; subst. cbn [app dissect_walk].
+  destruct (c =? 38) eqn:E1; [lia|]. destruct (c =? 61) eqn:E2; [lia|].
+  rewrite IH by assumption. cbn [rev]. rewrite <- app_assoc. reflexivity.
+Qed.
+
+Lemma walk_val pts bc : forall s rest kfn kr vr acc cnt, no_amp_eq s ->
+  dissect_walk pts bc (s ++ rest) kfn kr (Some vr) acc cnt
+  = dissect_walk pts bc rest kfn kr (Some (rev s ++ vr)) acc cnt.
+Proof.
+  induction s as [|c s IH]; intros rest kfn kr vr acc cnt H; [reflexivity|].
+  inversion H as [|? ? [H1 H2] Hs]; subst. cbn [app dissect_walk].
+  destruct (c =? 38) eqn:E1; [lia|]. destruct (c =? 61) eqn:E2; [lia|].
+  rewrite IH by assumption. cbn [rev]. rewrite <- app_assoc. reflexivity.
+Qed.
+
+Definition item_1_255 (it : qitem) : Prop :=
+  all_1_255 (fst it) /\ match snd it with None => True | Some t => all_1_255 t end.
+Definition items_1_255 (l : list qitem) : Prop := Forall item_1_255 l.
+
+Section RoundTrip.
+Variables stp nb pts : bool.
+Hypothesis Hmatch : stp = true -> pts = true.
+
+Definition vpart (v : option text) : text :=
+  match v with None => [] | Some t => 61 :: escape stp nb t end.
+
+Lemma qtext_cons first k v r :
+  qtext stp nb first ((k, v) :: r)
+  = (if first then [] else [38]) ++ escape stp nb k ++ vpart v ++ qtext stp nb false r.
+Proof. reflexivity. Qed.
+
+(* one item, read from a fresh state *)
+Lemma walk_item k v rest kfn acc cnt :
+  (kfn = true -> escape stp nb k ++ vpart v ++ rest = []) ->
+  dissect_walk pts BrDontTouch (escape stp nb k ++ vpart v ++ rest) kfn [] None acc cnt
+  = dissect_walk pts BrDontTouch rest kfn (rev (escape stp nb k))
+      (option_map (fun t => rev (escape stp nb t)) v) acc cnt.
+Proof.
+  intros Hk. destruct kfn.
+  - specialize (Hk eq_refl). apply app_eq_nil in Hk. destruct Hk as [E1 E2].
+    apply app_eq_nil in E2. destruct E2 as [E2 E3]. rewrite E1, E2, E3.
+    destruct v; [discriminate|]. reflexivity.
+  - rewrite walk_key by apply escape_no_amp_eq. rewrite app_nil_r.
+    destruct v as [t|]; cbn [vpart option_map app]; [|reflexivity].
+    cbn [dissect_walk]. change (61 =? 38) with false. change (61 =? 61) with true. cbv iota.
+    rewrite walk_val by apply escape_no_amp_eq. rewrite app_nil_r. reflexivity.
+Qed.
+
+Lemma decode_escape t : all_1_255 t ->
+  cstr (unescape pts BrDontTouch (escape stp nb t)) = norm_text nb t.
+Proof.
+  intros H. rewrite unescape_escape by assumption. unfold cstr, norm_text.
+  apply until_nul_id. apply all_1_255_nonzero. destruct nb; [apply crlf_from_1_255|]; assumption.
+Qed.
+
+(* the expected list, computed item by item *)
+Fixpoint rt (l : list qitem) : list qitem :=
+  match l with
+  | [] => []
+  | it :: r => (if nonvanishing it then [norm_item nb it] else []) ++ rt r
+  end.
+
+Lemma rt_eq l : rt l = roundtrip_expect nb l.
+Proof.
+  unfold roundtrip_expect. induction l as [|it r IH]; [reflexivity|].
+  cbn [rt filter]. destruct (nonvanishing it); cbn [map app]; rewrite IH; reflexivity.
+Qed.
+
+Lemma append_item_item k v acc cnt : item_1_255 (k, v) ->
+  append_item pts BrDontTouch false (rev (escape stp nb k))
+              (option_map (fun t => rev (escape stp nb t)) v) acc cnt
+  = (rev (rt [(k, v)]) ++ acc, (cnt + Z.of_nat (length (rt [(k, v)])))%Z).
+Proof.
+  intros [Hk Hv]. cbn [fst snd] in *. unfold append_item.
+  destruct v as [t|]; cbn [option_map].
+  - assert (rt [(k, Some t)] = [(norm_text nb k, Some (norm_text nb t))]) as ->.
+    { destruct k; reflexivity. }
+    destruct (rev (escape stp nb k)) eqn:Er.
+    + rewrite <- Er. rewrite !rev_involutive. rewrite !decode_escape by assumption. reflexivity.
+    + rewrite <- Er. rewrite !rev_involutive. rewrite !decode_escape by assumption. reflexivity.
+  - destruct k as [|c k'].
+    + change (escape stp nb []) with (@nil N). cbn [rev rt nonvanishing app length].
+      f_equal. lia.
+    + cbn [rt nonvanishing norm_item fst snd option_map rev app length].
+      destruct (rev (escape stp nb (c :: k'))) eqn:Er.
+      * exfalso. apply (f_equal (@rev N)) in Er. rewrite rev_involutive in Er. cbn [rev] in Er.
+        apply escape_nil_iff in Er; [discriminate|]. apply all_1_255_nonzero. assumption.
+      * rewrite <- Er. rewrite !rev_involutive. rewrite decode_escape by assumption. reflexivity.
+Qed.
+
+Lemma rt_cons it l : rt (it :: l) = rt [it] ++ rt l.
+Proof. cbn [rt]. rewrite app_nil_r. reflexivity. Qed.
+
+Lemma qtext_false_nil l : qtext stp nb false l = [] -> l = [].
+Proof. destruct l as [|[k v] r]; [reflexivity|]. cbn [qtext app]. discriminate. Qed.
+
+(* the items after the first one, read from the state left by the item before *)
+Lemma walk_tail : forall l kr vr acc cnt, items_1_255 l ->
+  dissect_walk pts BrDontTouch (qtext stp nb false l) false kr vr acc cnt
+  = let '(acc', cnt') := append_item pts BrDontTouch false kr vr acc cnt in
+    (rev acc' ++ rt l, (cnt' + Z.of_nat (length (rt l)))%Z).
+Proof.
+  induction l as [|[k v] l IH]; intros kr vr acc cnt Hall.
+  { cbn [qtext dissect_walk]. destruct (append_item pts BrDontTouch false kr vr acc cnt) as [acc' cnt'].
+    cbn [rt length]. rewrite app_nil_r. f_equal. lia. }
+  inversion Hall as [|? ? Hit Hl]; subst.
+  rewrite qtext_cons. cbn [app dissect_walk]. change (38 =? 38) with true. cbv iota.
+  destruct (append_item pts BrDontTouch false kr vr acc cnt) as [acc' cnt'].
+  destruct (escape stp nb k ++ vpart v ++ qtext stp nb false l) eqn:Et.
+  - (* nothing follows the '&': keyFirst is NULL *)
+    apply app_eq_nil in Et. destruct Et as [E1 E2]. apply app_eq_nil in E2. destruct E2 as [E2 E3].
+    apply qtext_false_nil in E3. subst l.
+    apply escape_nil_iff in E1; [|apply all_1_255_nonzero; apply Hit]. subst k.
+    destruct v; [discriminate|]. cbn [dissect_walk append_item].
+    cbn [rt nonvanishing app length]. rewrite app_nil_r. f_equal. lia.
+  - rewrite <- Et. rewrite walk_item by discriminate. rewrite IH by assumption.
+    rewrite append_item_item by assumption.
+    rewrite (rt_cons (k, v) l). rewrite rev_app_distr, rev_involutive.
+    rewrite <- app_assoc. rewrite app_length. f_equal. rewrite Nat2Z.inj_add, Z.add_assoc. reflexivity.
+Qed.
+
+Lemma dissect_query_text l : l <> [] -> items_1_255 l ->
+  dissect pts BrDontTouch (query_text stp nb l)
+  = DOk (roundtrip_expect nb l) (Z.of_nat (length (roundtrip_expect nb l))).
+Proof.
+  intros Hne Hall. rewrite <- rt_eq.
+  destruct l as [|[k v] l]; [congruence|]. inversion Hall as [|? ? Hit Hl]; subst.
+  unfold dissect, query_text. rewrite qtext_cons. cbn [app].
+  rewrite walk_item by discriminate. rewrite walk_tail by assumption.
+  rewrite append_item_item by assumption.
+  rewrite (rt_cons (k, v) l). rewrite app_nil_r, rev_involutive. rewrite app_length.
+  f_equal. rewrite Nat2Z.inj_add. reflexivity.
+Qed.
+End RoundTrip.
+
+(* composing and dissecting with matching options gives the list back: items with an empty key
+   and no value vanish, line breaks are CR LF if normalisation was requested *)
+Theorem compose_dissect_roundtrip stp nb pts cap l out w log :
+  (stp = true -> pts = true) -> items_1_255 l ->
+  compose_ex false stp nb cap l = COk out w log ->
+  dissect pts BrDontTouch out
+  = DOk (roundtrip_expect nb l) (Z.of_nat (length (roundtrip_expect nb l))).
+Proof.
+  intros Hm Hall H. pose proof (compose_ex_fits false stp nb cap l) as F. rewrite H in F.
+  destruct F as (-> & _). apply dissect_query_text; try assumption.
+  intros ->. discriminate.
+Qed.
